@@ -176,6 +176,13 @@ def pnode(spec):
         p = OnDiskPartition()
         for k, v in spec["own"]:
             p[k] = _part_value(v)
+    elif spec.get("dd"):
+        # the idiom of the partition module's docstring: a dictionary with a default factory
+        import collections
+        d = collections.defaultdict(list)
+        for k, v in spec["own"]:
+            d[k] = _part_value(v)
+        p = InMemoryPartition(d)
     else:
         p = InMemoryPartition({k: _part_value(v) for k, v in spec["own"]})
     if parent is not None:
@@ -184,3 +191,15 @@ def pnode(spec):
 
 
 FUNCS["pnode"] = pnode
+
+
+@memento_function(cluster=CL, version="1")
+def prelay(spec):
+    """returns, unchanged, the partition another memento function returned (spec: {"id", "inner": pnode spec, "depth"})"""
+    _trace(("exec", "prelay", spec.get("id"), None))
+    if spec.get("depth", 0) > 0:
+        return prelay(dict(spec, depth=spec["depth"] - 1, id=spec["id"] * 10))
+    return pnode(spec["inner"])
+
+
+FUNCS["prelay"] = prelay
